@@ -10,7 +10,8 @@
 From Coq Require Import String List ZArith Strings.Byte Bool.
 From Verif Require Import Base.Wire TaxId.Common TaxId.Regimes TaxId.Spec TaxId.CommonProofs TaxId.CheckProofs
   TaxId.Mod11Proofs TaxId.PTProofs TaxId.ELProofs TaxId.COProofs TaxId.BRProofs TaxId.Mod97Proofs
-  TaxId.LuhnProofs TaxId.ESProofs TaxId.GBProofs TaxId.NLProofs TaxId.DEProofs TaxId.INProofs TaxId.NormProofs.
+  TaxId.LuhnProofs TaxId.ESProofs TaxId.GBProofs TaxId.NLProofs TaxId.DEProofs TaxId.INProofs TaxId.NormProofs
+  TaxId.SpecProofs.
 Import ListNotations.
 Open Scope Z_scope.
 
@@ -420,6 +421,18 @@ Print Assumptions PT_accepts_exactly_the_published_rule.
 Theorem EL_accepts_exactly_the_published_rule c : valid_EL c = true <-> c = [] \/ Spec_EL c.
 Proof. exact (valid_EL_iff_spec c). Qed.
 Print Assumptions EL_accepts_exactly_the_published_rule.
+
+Theorem IT_accepts_exactly_the_published_rule c : valid_IT c = true <-> c = [] \/ Spec_IT c.
+Proof. exact (valid_IT_iff_spec c). Qed.
+Print Assumptions IT_accepts_exactly_the_published_rule.
+
+Theorem FR_accepts_exactly_the_published_rule c : valid_FR c = true <-> c = [] \/ Spec_FR c.
+Proof. exact (valid_FR_iff_spec c). Qed.
+Print Assumptions FR_accepts_exactly_the_published_rule.
+
+Theorem BE_accepts_exactly_the_published_rule c : valid_BE c = true <-> c = [] \/ Spec_BE c.
+Proof. exact (valid_BE_iff_spec c). Qed.
+Print Assumptions BE_accepts_exactly_the_published_rule.
 
 (* NL: the implementation accepts the published rule plus "remainder 10 with check digit 0" *)
 Theorem NL_accepts_exactly c :
